@@ -250,7 +250,11 @@ of the API.
   before anything in that process has called into the library for reading, and the
   reference is computed afterwards — process-wide state that is filled on first
   use is then raced for by the very first calls (`Z11-r12`; 16 such cases per
-  quick run). The kind `protofailleaf`, a leaf that announces a protobuf payload
+  quick run). In a cold-process case every operation first gets a *phase* of its
+  own in which all goroutines are released together to make the process's first
+  call of that operation at the same moment — the final regression run had missed
+  `Z11-r12` once when the first calls were spread over the goroutines' random
+  orders (the race detector's access history is bounded). The kind `protofailleaf`, a leaf that announces a protobuf payload
   which cannot be marshalled (`X11-r14`); the library's warning sink is redirected
   into a counter.
 * **C19** — a decoded stage: the accessor model must also hold on the error
